@@ -78,13 +78,23 @@ func c04R1R2(p *Prog, r *Report) {
 		r.Check(idA != nil && idA == idB && single, r1, prefix+":same-packet-id", madd.Pos(), "IsOk and MustAdd receive the same, once-defined packet ID variable", "the ID checked and the ID recorded differ")
 		// packet id provenance: Uint64 of separateHeader[8:]
 		if idA != nil {
-			rhs, _, _, ok := fc.SoleDefRHS(idA)
+			rhs, idx, _, ok := fc.SoleDefRHS(idA)
 			good := false
+			rinfo := info
 			if ok {
+				if idx >= 0 {
+					// the ID is a result of a decoding helper of this package: look at what that
+					// result is inside the helper
+					if c, isCall := ast.Unparen(rhs).(*ast.CallExpr); isCall {
+						if e, ei, ok2 := soleResultExpr(p, info, c, idx); ok2 {
+							rhs, rinfo = e, ei
+						}
+					}
+				}
 				if c, isCall := ast.Unparen(rhs).(*ast.CallExpr); isCall && len(c.Args) == 1 {
-					if fn := Callee(info, c); fn != nil && fn.Name() == "Uint64" {
+					if fn := Callee(rinfo, c); fn != nil && fn.Name() == "Uint64" {
 						if sl, isSl := ast.Unparen(c.Args[0]).(*ast.SliceExpr); isSl && sl.Low != nil && sl.High == nil {
-							if k, isC := constInt(info, sl.Low); isC && k == 8 {
+							if k, isC := constInt(rinfo, sl.Low); isC && k == 8 {
 								good = true
 							}
 						}
@@ -644,4 +654,48 @@ func c04R6(p *Prog, r *Report) {
 		}
 	}
 	r.Check(okMask, rule, "ss2022.NewSlidingWindowFilter:mask-is-blocks-minus-one", p.posStr(fc.Body.Pos()), "index mask = number of blocks - 1", "the block index mask is not the number of ring blocks minus one")
+}
+
+// soleResultExpr: for a call of a function of the analysed module, the one expression its idx-th
+// result always is — the operand of its only return statement, or the only definition of the
+// named result when the returns are bare.
+func soleResultExpr(p *Prog, info *types.Info, call *ast.CallExpr, idx int) (ast.Expr, *types.Info, bool) {
+	fn := Callee(info, call)
+	if fn == nil {
+		return nil, nil, false
+	}
+	cf := p.CtxOfObj(fn.Origin())
+	if cf == nil || cf.Body == nil {
+		return nil, nil, false
+	}
+	rets := cf.Returns()
+	if len(rets) == 0 {
+		return nil, nil, false
+	}
+	var exprs []ast.Expr
+	for _, rv := range rets {
+		rs := cf.G.V[rv].Node.(*ast.ReturnStmt)
+		if len(rs.Results) == 0 {
+			o := cf.ResultObj(idx)
+			if o == nil {
+				return nil, nil, false
+			}
+			rhs, i2, _, ok := cf.SoleDefRHS(o)
+			if !ok || i2 >= 0 {
+				return nil, nil, false
+			}
+			exprs = append(exprs, rhs)
+			continue
+		}
+		if idx >= len(rs.Results) {
+			return nil, nil, false
+		}
+		exprs = append(exprs, rs.Results[idx])
+	}
+	for _, e := range exprs[1:] {
+		if fullStr(e) != fullStr(exprs[0]) {
+			return nil, nil, false
+		}
+	}
+	return exprs[0], cf.Info(), true
 }
